@@ -80,6 +80,13 @@ static void judge_tree(cbor_item_t* t, bool distinct) {
     return;
   }
   if (distinct && vf_walk_nodes >= 2) vf_cnt(VC_DISTINCT, 1);
+  if (vf_walk_nodes >= 3 && (vf_cnt_get_local(VC_EVAL) & 0xffff) == 9) {
+    char hx[100];
+    vf_sb_reset(&sb2);
+    ref_render(w, &sb2);
+    vf_hex(hx, sizeof hx, refb, el < 40 ? el : 40);
+    vf_sample("tree %s (%zu nodes%s%s) -> reference encoding %s%s (%zu bytes)", sb2.s, vf_walk_nodes, has_shared(w) ? ", shared sub-items" : "", has_partial(w) ? ", partially filled definite container" : "", hx, el > 40 ? ".." : "", el);
+  }
   uint8_t* end = vf_guard_end();
   size_t sz = cbor_serialized_size(t);
 
